@@ -30,6 +30,11 @@ Fold(ops, k, routes, seen, prefix) ==
          IF acc # o.acc THEN k
          ELSE Fold(ops, k + 1, IF acc THEN routes \cup {[id |-> o.u, fr |-> Frags(u.pat), method |-> u.method]} ELSE routes,
                    seen, prefix)
+    ELSE IF o.op = "hreq" THEN      \* hammer phase: one distinct observation made by o.cnt concurrent requests (ids compared by the harness)
+         LET want == Match(routes, o.p, o.m) IN
+         IF o.crash = "" /\ SnapOK(o.relay, want) /\ SnapOK(o.handler, want) THEN Fold(ops, k + 1, routes, seen, prefix) ELSE k
+    ELSE IF o.op = "hsum" THEN      \* hammer phase totals: no request id handed out twice, none changed during its request, no torn value
+         IF o.dups = 0 /\ o.changed = 0 /\ o.crash = "" THEN Fold(ops, k + 1, routes, seen, prefix) ELSE k
     ELSE LET want == Match(routes, o.p, o.m)
              gid  == o.relay.gid
              pre  == SubSeq(gid, 1, 9)
